@@ -173,16 +173,20 @@ Example c06_example_monitor_silent_on_model_trace :
 Proof. vm_compute. split; reflexivity. Qed.
 
 (* ------------------------------------------------------------------ *)
-(* The monitors on the MODEL's own observations, for every event list and configuration (see Props_C07.v for the full
-   account).  FULL STATEMENT WANTED:
-     forall cfg evs, monitor mon 0 (minit cfg) [] evs (run_obs step_opt (hinit cfg) evs) = []
-   PROVED for the clauses of [proved2]; of property 6 these are ALL its clauses: 6/1 (the key set after every event is the
-   reference key set), 6/2 (data values), 6/3 (every return value), 6/4 (a reference-counted key is present while an
-   unreleased reference exists), 6/5 (the Release calls that got past the flag swap) and 6/9 (every observation parses).
+(* The monitors on the MODEL's own observations, for every event list and every configuration (see Props_C07.v for the
+   full account): the FULL statement - no clause set, no bound on keys, references, instances, timers, length.
+   Of property 6 the monitors' clauses are: 6/1 (the key set after every event is the reference key set), 6/2 (data values),
+   6/3 (every return value), 6/4 (a reference-counted key is present while an unreleased reference exists), 6/5 (the Release
+   calls that got past the flag swap) and 6/9 (every observation parses).
    The reference machine's key table (data, DEADLINE of the pending removal, failed flag per key, constructor counts)
    describes the model's key map (timer TOKENS) after every codec-level step: the request-level machine simulates the
    reference specification AbsSpec.v (extended by ResetRoutine/ResetAllRoutines, ProofsReset.v) operation by operation. *)
-From Util Require Import Keyed.ProofsMon Keyed.ProofsMon2 Keyed.ProofsMonAll Keyed.ProofsMonAll2.
+From Util Require Import Keyed.ProofsMon Keyed.ProofsMon2 Keyed.ProofsMonAll Keyed.ProofsMonAll2 Keyed.ProofsMonAll3.
+Theorem c06_model_satisfies_monitors : forall cfg evs,
+  monitor mon 0 (minit cfg) [] evs (run_obs step_opt (hinit cfg) evs) = [].
+Proof. exact model_satisfies_monitors. Qed.
+Print Assumptions c06_model_satisfies_monitors.
+(* an earlier stage of the proof: every clause except 7/5 *)
 Theorem c06_model_satisfies_monitors_clauses_6_1_6_2_6_3_6_4_6_5 : forall cfg evs,
   monitor (mon_only proved2) 0 (minit cfg) [] evs (run_obs step_opt (hinit cfg) evs) = [].
 Proof. exact model_satisfies_monitors_proved2. Qed.
